@@ -282,8 +282,20 @@ class UnitRegistry:
         equiv = sorted(set(equiv))
         return equiv
 
+    def __setstate__(self, state):
+        # a registry travels inside a pickled Unit: put unyt's own dimension
+        # symbols back (in place, so that registries sharing a table still do)
+        self.__dict__.update(state)
+        for k, v in list(self.lut.items()):
+            dims = unyt_dims._intern_dimensions(v[1])
+            if dims is not v[1]:
+                self.lut[k] = (v[0], dims) + tuple(v[2:])
+
     def __deepcopy__(self, memodict=None):
-        lut = copy.deepcopy(self.lut)
+        lut = {
+            k: (v[0], unyt_dims._intern_dimensions(v[1])) + tuple(v[2:])
+            for k, v in copy.deepcopy(self.lut).items()
+        }
         ret = type(self)(lut=lut)
         ret._derived_symbols = set(self._derived_symbols or ())
         return ret
@@ -405,6 +417,8 @@ def _correct_old_unit_registry(data, sympify=False):
                 if dim == unyt_dims.length:
                     unsan_v[0] /= 100 ** float(power)
 
+        # a pickled table holds unpickled sympy symbols, not unyt's own
+        unsan_v[1] = unyt_dims._intern_dimensions(unsan_v[1])
         lut[k] = tuple(unsan_v)
     for k in default_unit_symbol_lut:
         if k not in lut:
